@@ -47,6 +47,7 @@ type Enc struct {
 	Variadic bool   `json:"variadic,omitempty"` // append a variadic parameter
 	Nest     int    `json:"nest,omitempty"`     // wrap every parameter object Nest levels deeper
 	RNest    bool   `json:"rnest,omitempty"`    // result objects hold all but their first field in a nested result object
+	NilRes   bool   `json:"nilres,omitempty"`   // single results are nil pointers (values like any other: stored, cached, injected)
 	ViaOpt   bool   `json:"viaopt,omitempty"`   // name / group / As given by Provide options instead of tags
 	NoErr    bool   `json:"noerr,omitempty"`    // no trailing error result
 	ErrFirst bool   `json:"errfirst,omitempty"` // the error result comes first instead of last
@@ -217,8 +218,8 @@ func (c *Catalog) TLA() string {
 		if i > 0 {
 			b.WriteString(", ")
 		}
-		fmt.Fprintf(&b, "%s |-> [kind |-> %s, scope |-> %s, exp |-> %s, cb |-> %s, dur |-> %d, inv |-> %s, ps |-> <<",
-			id, q(f.Kind), q(f.Scope), tlaBool(f.Exp), tlaBool(f.Cb), f.Dur, q(f.Inv))
+		fmt.Fprintf(&b, "%s |-> [kind |-> %s, scope |-> %s, exp |-> %s, cb |-> %s, dur |-> %d, inv |-> %s, nilres |-> %s, ps |-> <<",
+			id, q(f.Kind), q(f.Scope), tlaBool(f.Exp), tlaBool(f.Cb), f.Dur, q(f.Inv), tlaBool(f.Enc.NilRes))
 		for j, p := range f.Ps {
 			if j > 0 {
 				b.WriteString(", ")
